@@ -18,7 +18,7 @@ import ast
 import os
 from typing import Dict, List, Optional, Tuple
 
-from ..translate import HEADER, Unsupported, Val, _lit_float, parse_functions, sha_of
+from ..translate import HEADER, Unsupported, Val, _lit_float, parse_functions, sha_of, with_inlining
 
 REGION = "NumpyKernels"
 SOURCES = ["speckit/core.py"]
@@ -636,7 +636,7 @@ def generate(repo: str) -> Tuple[str, List[str]]:
             out += f"-- MISSING {name}\ndef {name}_MISSING : Nat := translation_failed_{name}\n\n"
             continue
         try:
-            text, info = NpTr(fns[name], SIGS[name], known).translate()
+            text, info = with_inlining(fns[name], lambda f_: NpTr(f_, SIGS[name], known).translate())
             out += text + "\n"
             known[name] = info
         except Unsupported as ex:
